@@ -37,6 +37,8 @@ type workIn struct {
 	Models []*sqlprog.Model `json:"models"`
 	Seeds  []int64          `json:"seeds"`
 	NOps   int              `json:"nops"`
+	// behaviours exported by spec/CrudReplay.tla, per model id: such a model is stepped through them instead of random calls
+	Scripts map[int][][]zcrud.ScriptStep `json:"scripts,omitempty"`
 }
 
 type modelOut struct {
@@ -357,11 +359,9 @@ type caseFile struct {
 	Enums  map[string][]string ` + "`json:\"enums\"`" + `
 }
 
-// usage: crudbin <dir> <case> <seed> <nOps>
+// usage: crudbin <dir> <case> <seed> <nOps>   |   crudbin <dir> <case> script
 func main() {
 	c, _ := strconv.Atoi(os.Args[2])
-	seed, _ := strconv.ParseInt(os.Args[3], 10, 64)
-	nOps, _ := strconv.Atoi(os.Args[4])
 	b, err := os.ReadFile(fmt.Sprintf("%%s/case%%d.json", os.Args[1], c))
 	if err != nil {
 		panic(err)
@@ -370,6 +370,33 @@ func main() {
 	if err := json.Unmarshal(b, &cf); err != nil {
 		panic(err)
 	}
+	if os.Args[3] == "script" {
+		sb, err := os.ReadFile(fmt.Sprintf("%%s/script%%d.json", os.Args[1], c))
+		if err != nil {
+			panic(err)
+		}
+		var scripts [][]zcrud.ScriptStep
+		if err := json.Unmarshal(sb, &scripts); err != nil {
+			panic(err)
+		}
+		w := bufio.NewWriter(os.Stdout)
+		defer w.Flush()
+		for k, steps := range scripts {
+			name := fmt.Sprintf("c%%d-script%%d", c, k)
+			if _, err := zpgmini.Create(name, cf.Schema); err != nil {
+				panic(err)
+			}
+			db, err := sql.Open("pgmini", name)
+			if err != nil {
+				panic(err)
+			}
+			zcrud.RunScript(pkgs[c](), cf.Meta, db, w, c, k+1, steps)
+			db.Close()
+		}
+		return
+	}
+	seed, _ := strconv.ParseInt(os.Args[3], 10, 64)
+	nOps, _ := strconv.Atoi(os.Args[4])
 	name := fmt.Sprintf("c%%d-%%d", c, seed)
 	if _, err := zpgmini.Create(name, cf.Schema); err != nil {
 		panic(err)
@@ -547,8 +574,18 @@ func Worker(args []string) {
 			if o.Skipped != "" {
 				continue
 			}
-			for _, seed := range in.Seeds {
+			seeds := in.Seeds
+			scripts, scripted := in.Scripts[o.Case]
+			if scripted {
+				sb, _ := json.Marshal(scripts)
+				os.WriteFile(filepath.Join(caseDir, fmt.Sprintf("script%d.json", o.Case)), sb, 0o644)
+				seeds = []int64{0}
+			}
+			for _, seed := range seeds {
 				run := exec.Command(bin, caseDir, fmt.Sprint(o.Case), fmt.Sprint(seed), fmt.Sprint(in.NOps))
+				if scripted {
+					run = exec.Command(bin, caseDir, fmt.Sprint(o.Case), "script")
+				}
 				var stderr strings.Builder
 				run.Stderr = &stderr
 				done := make(chan struct{})
@@ -557,7 +594,7 @@ func Worker(args []string) {
 				go func() { stdout, rerr = run.Output(); close(done) }()
 				select {
 				case <-done:
-				case <-time.After(60 * time.Second):
+				case <-time.After(map[bool]time.Duration{false: 60 * time.Second, true: 5 * time.Minute}[scripted]):
 					run.Process.Kill()
 					<-done
 					rerr = fmt.Errorf("timeout")
@@ -662,8 +699,61 @@ func Run(c *core.Ctx, replay string) (*core.Result, error) {
 			models = append(models, sqlprog.WitnessModel(u, w, 9001+k))
 		}
 	}
+	// spec -> code: behaviours of CrudReplay.tla (tlc -simulate) stepped through the code generated for the model
+	// file that declares CrudModel's own tables
+	scripts := map[int][][]zcrud.ScriptStep{}
+	expect := map[int][][]zcrud.ScriptStep{}
+	if replay == "" {
+		type rcfg struct {
+			od           string
+			uniqB, nullB bool
+		}
+		rcfgs := []rcfg{{"CASCADE", false, true}, {"", true, false}, {"SET NULL", false, true}}
+		nBeh, steps := 100, 14
+		if c.Thorough() {
+			rcfgs = append(rcfgs, rcfg{"CASCADE", true, false}, rcfg{"", false, true}, rcfg{"SET NULL", true, true}, rcfg{"CASCADE", false, false}, rcfg{"", false, false})
+			nBeh, steps = 1000, 16
+		}
+		for k, rc := range rcfgs {
+			ef := filepath.Join(c.Scratch, fmt.Sprintf("replay-%d.ndjson", k))
+			b2s := map[bool]string{false: "FALSE", true: "TRUE"}
+			cfg := fmt.Sprintf("SPECIFICATION RSpec\nCONSTANTS\n  OD = %q\n  MaxRows = 3\n  UniqB = %s\n  NV = 2\n  NullB = %s\n  Steps = %d\nINVARIANTS ExportInv IntegrityInv UniqueInv IdsInv\nPOSTCONDITION ExportPost\n", rc.od, b2s[rc.uniqB], b2s[rc.nullB], steps)
+			t, err := c.RunTLC(core.TLCOpts{Module: "CrudReplay", ConfigText: cfg, Workers: 1, Simulate: fmt.Sprintf("num=%d", nBeh), Depth: steps + 2, Seed: c.Seed + int64(k),
+				Env: map[string]string{"VERIF_EXPORT": ef}, Timeout: 20 * time.Minute})
+			if err != nil {
+				return nil, err
+			}
+			if err := t.MustClean("CrudReplay " + rc.od); err != nil {
+				return nil, err
+			}
+			res.AddTLC(t)
+			recs, err := core.ReadNDJSON(ef)
+			if err != nil || len(recs) == 0 {
+				return nil, core.Inconcl("CrudReplay: no behaviour exported (%v)", err)
+			}
+			id := 8001 + k
+			for _, r := range recs {
+				b, _ := json.Marshal(r["steps"])
+				var sc []zcrud.ScriptStep
+				if err := json.Unmarshal(b, &sc); err != nil {
+					return nil, core.Inconcl("CrudReplay: exported behaviour does not parse: %v", err)
+				}
+				for i := range sc {
+					sc[i].Table = sqlprog.ReplayNames[sc[i].Table]
+					sizes := map[string]int{}
+					for n, v := range sc[i].Sizes {
+						sizes[sqlprog.ReplayNames[n]] = v
+					}
+					sc[i].Sizes = sizes
+				}
+				scripts[id] = append(scripts[id], sc)
+			}
+			expect[id] = scripts[id]
+			models = append(models, sqlprog.ReplayModel(u, id, rc.od, rc.uniqB, rc.nullB))
+		}
+	}
 	var out workOut
-	log, err := c.RunSelfWorker("c05", workIn{Models: models, Seeds: seeds, NOps: nOps}, &out, 40*time.Minute)
+	log, err := c.RunSelfWorker("c05", workIn{Models: models, Seeds: seeds, NOps: nOps, Scripts: scripts}, &out, 40*time.Minute)
 	if err != nil {
 		return nil, core.Inconcl("c05 worker: %v\n%s", err, core.Tail(log, 20))
 	}
@@ -722,8 +812,67 @@ func Run(c *core.Ctx, replay string) (*core.Result, error) {
 	if calls == 0 && len(res.Violations) == 0 {
 		return nil, core.Inconcl("no call history was produced")
 	}
+	// spec -> code: what the replayed behaviours predicted (outcome of each step, table sizes after it) against what
+	// the generated code did.  The calls themselves are judged by TraceCrud below; a disagreement here that
+	// TraceCrud does not report would mean that the driver mistranslates the behaviours.
+	type disagreement struct {
+		caseID, script int
+		what           string
+	}
+	var disagreements []disagreement
+	replayed, replayedSteps := 0, 0
+	stepKinds := map[string]int{}
+	for id, scs := range expect {
+		o, ok := byCase[id]
+		if !ok || o.Skipped != "" || o.Died != "" {
+			continue
+		}
+		var evs []map[string]any
+		for _, e := range o.Events {
+			var m map[string]any
+			d := json.NewDecoder(strings.NewReader(string(e)))
+			d.UseNumber()
+			d.Decode(&m)
+			evs = append(evs, m)
+		}
+		nT := len(o.Meta)
+		pos := 0
+		for k, sc := range scs {
+			if pos >= len(evs) || evs[pos]["ev"] != "reset" {
+				return nil, core.Inconcl("replay of model %d: script %d has no session in the call history", id, k+1)
+			}
+			pos++
+			replayed++
+			for i, st := range sc {
+				if pos+nT >= len(evs) {
+					return nil, core.Inconcl("replay of model %d: script %d stops at step %d", id, k+1, i+1)
+				}
+				call := evs[pos]
+				replayedSteps++
+				stepKinds[st.Op+": "+st.Last]++
+				okReal := core.Str(call, "err") == ""
+				okSpec := strings.HasSuffix(st.Last, " ok")
+				if okReal != okSpec {
+					disagreements = append(disagreements, disagreement{id, k + 1, fmt.Sprintf("step %d (%s %s %v): the specification says %q, the call ended with error class %q (%s)", i+1, st.Op, st.Table, st.C, st.Last, core.Str(call, "err"), core.Str(call, "msg"))})
+					break
+				}
+				for j := 1; j <= nT; j++ {
+					sel := evs[pos+j]
+					outs, _ := sel["out"].([]any)
+					if want := st.Sizes[core.Str(sel, "table")]; len(outs) != want {
+						disagreements = append(disagreements, disagreement{id, k + 1, fmt.Sprintf("step %d (%s %s %v): table %s holds %d rows afterwards, the specification says %d", i+1, st.Op, st.Table, st.C, core.Str(sel, "table"), len(outs), want)})
+					}
+				}
+				pos += 1 + nT
+			}
+			// skip to the next session
+			for pos < len(evs) && evs[pos]["ev"] != "reset" {
+				pos++
+			}
+		}
+	}
 	if len(recs) > 0 {
-		bad, err := c.JudgeTrace(res, "TraceCrud", recs)
+		bad, err := c.JudgeTraceChunkedAt(res, "TraceCrud", recs, 32<<20, func(r any) bool { m, ok := r.(map[string]any); return ok && m["ev"] == "reset" })
 		if err != nil {
 			return nil, err
 		}
@@ -747,6 +896,26 @@ func Run(c *core.Ctx, replay string) (*core.Result, error) {
 				Replay: modelByCase[o.Case]})
 		}
 	}
+	if len(disagreements) > 0 {
+		reported := map[[2]int]bool{}
+		for _, v := range res.Violations {
+			if m, ok := v.Replay.(*sqlprog.Model); ok && m != nil {
+				reported[[2]int{m.ID, 0}] = true
+			}
+		}
+		for _, d := range disagreements {
+			if !reported[[2]int{d.caseID, 0}] {
+				return nil, core.Inconcl("replay of CrudReplay behaviours, model %d script %d: %s — but TraceCrud accepts the call history: the replay driver and the specification disagree on the translation", d.caseID, d.script, d.what)
+			}
+		}
+	}
+	if replay == "" && ran > 0 {
+		for _, need := range []string{"insert: insert ok", "insert: insert refused", "update: update ok", "update: update refused", "delete: delete ok", "delete: delete refused", "unlink: delete ok"} {
+			if stepKinds[need] == 0 {
+				return nil, core.Inconcl("replayed behaviours never contain a step %q", need)
+			}
+		}
+	}
 	// coverage of the operation vocabulary
 	var opList []string
 	for k, n := range ops {
@@ -758,11 +927,11 @@ func Run(c *core.Ctx, replay string) (*core.Result, error) {
 			return nil, core.Inconcl("operation %s was never exercised", need)
 		}
 	}
-	res.Extra = map[string]any{"operations": opList, "error_classes_observed": errsSeen, "models_run": ran, "sessions": sessions}
+	res.Extra = map[string]any{"replayed_behaviours": replayed, "replayed_steps": replayedSteps, "replayed_step_kinds": stepKinds, "operations": opList, "error_classes_observed": errsSeen, "models_run": ran, "sessions": sessions}
 	res.Evaluations = calls
 	res.TracesVsImpl = sessions
 	res.Nontrivial = calls - errsSeen[""]
-	res.Rule = fmt.Sprintf("%d model files composed from the supported column specifications of PgDDLModel.tla (every column kind appears in some table; UNIQUE, _SELECT KEY, unique / nullable foreign keys, ON DELETE CASCADE / SET NULL / NO ACTION chains, link table); %d sessions of %d random calls (ids mostly live, sometimes dangling; rows mostly legal, foreign keys sometimes dangling, unique keys sometimes colliding) + a final SelectAll of every table; nontrivial = calls that ended in an error class (norows / unique / fk)", len(models), sessions, nOps)
+	res.Rule = fmt.Sprintf("%d model files composed from the supported column specifications of PgDDLModel.tla (every column kind appears in some table; UNIQUE, _SELECT KEY, unique / nullable foreign keys, ON DELETE CASCADE / SET NULL / NO ACTION chains, link table); %d sessions of %d random calls (ids mostly live, sometimes dangling; rows mostly legal, foreign keys sometimes dangling, unique keys sometimes colliding) + a final SelectAll of every table; plus %d behaviours (%d steps) of CrudReplay.tla produced by tlc -simulate and stepped through the code generated for CrudModel's own tables, every table read back after each step; nontrivial = calls that ended in an error class (norows / unique / fk)", len(models), sessions, nOps, replayed, replayedSteps)
 	return res, nil
 }
 
